@@ -72,8 +72,14 @@ def op1(ctx):
             # `if !create_new { if too_small { return Err } }`: every path to the mapping call takes either the false edge of
             # the size test or the edge on which the local `create_new` is true (the file was just created and is empty)
             # the size test in either spelling: satsub(file_size, offset) < prefix  /  prefix > satsub(file_size, offset)
-            size_sw = [(x, 0) for x, c in res.conds.items() if tag(c) == "cmp" and ((c[1] == "Lt" and tag(c[2]) == "satsub") or (c[1] == "Gt" and tag(c[3]) == "satsub"))]
-            size_sw += [(x, 1) for x, c in res.conds.items() if tag(c) == "cmp" and ((c[1] == "Ge" and tag(c[2]) == "satsub") or (c[1] == "Le" and tag(c[3]) == "satsub"))]
+            # .. against the unified prefix alignUp(align_of H, reserved) + align_of H + size_of H (a file arena always has the unified layout, whatever
+            # the caller's `unify` option says)
+            def unified_prefix(t):
+                return isinstance(t, Lin) and any(tag(a) == "alignUp" for a in t.m) and t.m.get(A) == 1 and t.m.get(S) == 1 and not any(tag(a) == "phi" for a in t.m)
+            def thr(c):
+                return c[3] if tag(c[2]) == "satsub" else c[2]
+            size_sw = [(x, 0) for x, c in res.conds.items() if tag(c) == "cmp" and ((c[1] == "Lt" and tag(c[2]) == "satsub") or (c[1] == "Gt" and tag(c[3]) == "satsub")) and unified_prefix(thr(c))]
+            size_sw += [(x, 1) for x, c in res.conds.items() if tag(c) == "cmp" and ((c[1] == "Ge" and tag(c[2]) == "satsub") or (c[1] == "Le" and tag(c[3]) == "satsub")) and unified_prefix(thr(c))]
             # the flag is the bool that Options::open returned together with the file (whatever the local is called)
             cn = [i for i, l in enumerate(b.locals) if l["ty"] == "bool" and l["name"] and any(
                   "open(" in show(env.get(i)) for env in list(res.env_out.values())[:40] if env.get(i) is not None)]
